@@ -20,7 +20,7 @@ import (
 
 func init() {
 	simkit.Register(&simkit.Property{
-		ID: "C08", Level: "fault_enumeration", Bubble: true, Run: runC08,
+		ID: "C08", Level: "fault_enumeration", Bubble: true, Run: runC08, RunWallLimit: 40 * time.Minute,
 		Rule: "World B, n=3 t=2 (thorough also n=4; 40% of the runs n=4 with a fourth, Byzantine keyper following one of C07's scripted strategies), one victim keyper running the real main loop; which pending transactions a shuttermint block takes and in which order is a tape choice (20% deferral), so DKG messages of different keypers land in different blocks. Per run: a crash-free base execution of a complete DKG (check-in, config vote, dealing, accusing, apologizing, result, eon key; if the key generation fails by vote, also of the retried eon) records the victim's R seam requests (database round trips and shuttermint RPCs); then crash points of that base run are executed as twins with the base's choice sequence and the same crypto/rand stream: db.crash_before(k) for sampled (quick) / all (thorough) k<=R, db.crash_after_commit(k) for COMMITs (applied, reply lost), rpc.tm_ambiguous+crash for broadcasts (transaction accepted, client dies before the reply); the quick tier spends 5 points right after the commit of a block that carried DKG messages; sampled crash pairs (the restarted process dies again at its k2-th request); the process is restarted after 0-2 s with only committed database state. Oracles: (exactly-once) at every commit of the victim the newest tendermint_sync_meta.current_block grows by exactly 1 or not at all; (single commitment) shuttermint never receives two different polynomial commitments of the victim for one eon; (consistency) the victim's secret share matches the public share the others derive and t honest shares decrypt (C07's oracle over all keypers); (outbox) shuttermint receives the victim's committed outbox rows in id order, each at least once unless superseded, and the outbox is empty after the drain period; (outcome) success/failure per keyper equals the crash-free twin's whenever in both executions every DKG message landed inside its phase. Non-trivial = a crash point inside an open transaction; distinct = distinct (base trace, crash point) pairs.",
 		Assumptions: []string{"restart delay <= 2 s and phase length >= 8 blocks, so that a crash does not by itself push the victim's messages out of their phases", "operateShuttermint returning an error ends the process (supervisor restarts it)"},
 		Real:        []string{"keyper.KeyperCore.operateShuttermint, smobserver, fx.SendShutterMessages, ShuttermintState.Load/Invalidate", "app.ShutterApp", "keyper/database sqlc, pgx"},
